@@ -263,6 +263,13 @@ package stree
 //@+     && (forall a int, b int :: {p[a], p[b]} 0 <= a && b == a + 1 && b < len(p) ==> p[b] == p[a].left || p[b] == p[a].right)
 //@ pred pathOK(c *Cursor[T]) := nodePath(c.path)
 //@ spec cur(c *Cursor[T]) *node[T] := c.path[len(c.path) - 1]
+// The ordering half of C03. ordPath: the path starts at the root of a well-formed tree, stays inside it, and every key
+// of the tree outside the subtree of a path node compares with all keys of that subtree the way it compares with the
+// node's own key (the subtree's keys are an interval of the tree's keys). Established by pathTo and Root, kept by
+// every move; it is what makes "the next key" a statement about the whole tree.
+//@ pred ordPath(p []*node[T], cmp func(T, T) int) := len(p) > 0 ==> treeOK(p[0], cmp)
+//@+     && (forall j int :: {p[j]} 0 <= j && j < len(p) ==> p[j] in p[0].desc)
+//@+     && (forall j int, k int, m int :: {p[j], k in p[0].keys, m in p[j].keys} 0 <= j && j < len(p) && k in p[0].keys && !(k in p[j].keys) && m in p[j].keys ==> ((k < m) <==> (k < rank(cmp, p[j].X))))
 //@ pred samePrefix(c *Cursor[T], n int) := forall k int :: {c.path[k]} 0 <= k && k < n && k < len(c.path) ==> c.path[k] == old(c.path[k])
 //@
 //@ func (*Cursor).Valid
@@ -286,24 +293,29 @@ package stree
 //@   ensures  [C03] result == (c != nil && len(c.path) > 1)
 //@
 //@ func (*Cursor).Left
-//@   requires [C03] c != nil ==> pathOK(c)
-//@   ensures  [C03] same: result == c && (c != nil ==> pathOK(c))
+//@   ghost cmp func(T, T) int
+//@   requires [C03] c != nil ==> pathOK(c) && ordPath(c.path, cmp)
+//@   ensures  [C03] same: result == c && (c != nil ==> pathOK(c) && ordPath(c.path, cmp))
+//@   ensures  [C03] smaller: c != nil && old(len(c.path)) != 0 && old(cur(c).left) != nil ==> forall k int :: {k in cur(c).keys} k in cur(c).keys ==> k < rank(cmp, old(cur(c).X))
 //@   ensures  [C03] moved: c != nil && old(len(c.path)) != 0 && old(cur(c).left) != nil ==> len(c.path) == old(len(c.path)) + 1 && cur(c) == old(cur(c).left)
 //@   ensures  [C03] off: c != nil && old(len(c.path)) != 0 && old(cur(c).left) == nil ==> len(c.path) == 0
 //@   ensures  [C03] prefix: c != nil ==> samePrefix(c, old(len(c.path)))
 //@   modifies c.path, backing(c.path)
 //@
 //@ func (*Cursor).Right
-//@   requires [C03] c != nil ==> pathOK(c)
-//@   ensures  [C03] same: result == c && (c != nil ==> pathOK(c))
+//@   ghost cmp func(T, T) int
+//@   requires [C03] c != nil ==> pathOK(c) && ordPath(c.path, cmp)
+//@   ensures  [C03] same: result == c && (c != nil ==> pathOK(c) && ordPath(c.path, cmp))
+//@   ensures  [C03] larger: c != nil && old(len(c.path)) != 0 && old(cur(c).right) != nil ==> forall k int :: {k in cur(c).keys} k in cur(c).keys ==> k > rank(cmp, old(cur(c).X))
 //@   ensures  [C03] moved: c != nil && old(len(c.path)) != 0 && old(cur(c).right) != nil ==> len(c.path) == old(len(c.path)) + 1 && cur(c) == old(cur(c).right)
 //@   ensures  [C03] off: c != nil && old(len(c.path)) != 0 && old(cur(c).right) == nil ==> len(c.path) == 0
 //@   ensures  [C03] prefix: c != nil ==> samePrefix(c, old(len(c.path)))
 //@   modifies c.path, backing(c.path)
 //@
 //@ func (*Cursor).Up
-//@   requires [C03] c != nil ==> pathOK(c)
-//@   ensures  [C03] same: result == c && (c != nil ==> pathOK(c))
+//@   ghost cmp func(T, T) int
+//@   requires [C03] c != nil ==> pathOK(c) && ordPath(c.path, cmp)
+//@   ensures  [C03] same: result == c && (c != nil ==> pathOK(c) && ordPath(c.path, cmp))
 //@   ensures  [C03] moved: c != nil && old(len(c.path)) != 0 ==> len(c.path) == old(len(c.path)) - 1
 //@   ensures  [C03] prefix: c != nil ==> samePrefix(c, len(c.path))
 //@   modifies c.path
